@@ -386,10 +386,15 @@ impl<R: DdsRuntime> DcpsParticipantFactory<R> {
                 topic_name,
                 topic_qos,
                 reply_sender,
-            }) => reply_sender.send(
-                self.find_participant(&participant_handle)
-                    .and_then(|p| p.set_topic_qos(topic_name, topic_qos)),
-            ),
+            }) => match self
+                .domain_participant_list
+                .iter_mut()
+                .find(|x| x.get_instance_handle() == &participant_handle)
+                .ok_or(DdsError::AlreadyDeleted)
+            {
+                Ok(p) => reply_sender.send(p.set_topic_qos(topic_name, topic_qos, &self.runtime)),
+                Err(e) => reply_sender.send(Err(e)),
+            },
             DcpsMail::Topic(TopicServiceMail::GetQos {
                 participant_handle,
                 topic_name,
